@@ -181,7 +181,11 @@ func (ctx *Context) VerifParsedInput() string {
 }
 
 // VerifSeedGlobal reseeds the package-level generator.
-func VerifSeedGlobal(seed uint64) { randSource.Seed(seed) }
+func VerifSeedGlobal(seed uint64) {
+	randSourceMu.Lock()
+	defer randSourceMu.Unlock()
+	randSource.Seed(seed)
+}
 
 // VerifGlobalSource exposes the package-level generator (identity checks).
 func VerifGlobalSource() *rand.PCGSource { return randSource }
